@@ -1,1 +1,106 @@
-import SigModel.Spec.Hub
+/-
+C03 — Sessions of different backends (tenants) never reach each other.
+
+The hub model routes in three ways: through bus listener sets (room and user
+subjects, which carry the backend id), by writing directly to a session that
+was looked up by its public id (messages, control messages), and by looking a
+session up by its Nextcloud room-session id (room joins, room API calls).
+The theorems show, for every reachable state (every op sequence), that each of
+the three ways stays inside the backend it was started from.  The three source
+facts they depend on are regenerated from /repo on every run.
+-/
+import SigModel.Lemmas.HubOps
+
+namespace SigModel.Hub
+
+/-- The guards of the source: same-backend checks on session recipients of messages *and* control
+messages, and room-session ids resolved per backend. -/
+theorem C03_facts : Generated.Hub.messageBackendChecked = true ∧ Generated.Hub.controlBackendChecked = true ∧
+    Generated.Hub.roomSessionBackendChecked = true := by decide
+
+/-- **Bus subjects.** In every reachable state all listeners of the room subject `(b, r)`, all
+listeners of the user subject `(b, u)` and all members (and in-call members) of room `(b, r)` are
+sessions of backend `b` — also when room ids or user ids coincide across backends. -/
+theorem C03_subjects_per_backend (ops : List Op) (b : Nat) (s : Nat) :
+    (∀ r, s ∈ (run {} ops).1.roomL b r → ∃ x, (run {} ops).1.sess s = some x ∧ x.backend = b) ∧
+    (∀ u, s ∈ (run {} ops).1.userL b u → ∃ x, (run {} ops).1.sess s = some x ∧ x.backend = b) ∧
+    (∀ r rm, (run {} ops).1.rooms b r = some rm → (s ∈ rm.members ∨ s ∈ rm.inCall) →
+      ∃ x, (run {} ops).1.sess s = some x ∧ x.backend = b) := by
+  have hi := reachable_inv ops
+  generalize (run {} ops).1 = h at hi
+  refine ⟨?_, ?_, ?_⟩
+  · intro r hm; obtain ⟨x, hx, hb, _⟩ := (hi.roomL_iff b r s).mp hm; exact ⟨x, hx, hb⟩
+  · intro u hm; obtain ⟨x, hx, hb, _⟩ := (hi.userL_iff b u s).mp hm; exact ⟨x, hx, hb⟩
+  · intro r rm hrm hm
+    have hmem : s ∈ rm.members := hm.elim id (hi.incall b r rm s hrm)
+    obtain ⟨x, hx, hb, _⟩ := hi.mem_room b r rm s hrm hmem; exact ⟨x, hx, hb⟩
+
+/-- Rooms with the same id on different backends are distinct rooms with disjoint members. -/
+theorem C03_rooms_distinct (ops : List Op) (b₁ b₂ : Nat) (r : String) (rm₁ rm₂ : Room) (hne : b₁ ≠ b₂)
+    (h₁ : (run {} ops).1.rooms b₁ r = some rm₁) (h₂ : (run {} ops).1.rooms b₂ r = some rm₂) (s : Nat) :
+    ¬ (s ∈ rm₁.members ∧ s ∈ rm₂.members) := by
+  rintro ⟨m₁, m₂⟩
+  obtain ⟨x, hx, hb, _⟩ := (reachable_inv ops).mem_room b₁ r rm₁ s h₁ m₁
+  obtain ⟨y, hy, hb', _⟩ := (reachable_inv ops).mem_room b₂ r rm₂ s h₂ m₂
+  rw [hx] at hy; cases hy; exact hne (hb.symm.trans hb')
+
+/-- **Direct sends.** A message or control message addressed to the public id of a session of
+another backend is dropped: nothing is written anywhere and nothing changes, even though the
+foreign id is valid and known. -/
+theorem C03_foreign_session_unreachable (a : Acc) (s t : Nat) (ctl : Bool) (data : String) (x y : Sess)
+    (hx : a.h.sess s = some x) (hy : a.h.sess t = some y) (hne : y.backend ≠ x.backend) :
+    processMessage a s ctl (.session (some t)) data = a := by
+  obtain ⟨f1, f2, _⟩ := C03_facts
+  unfold processMessage
+  simp only [hx, hy]
+  split
+  · rfl
+  · split
+    · rfl
+    · cases ctl <;> simp [f1, f2, hne]
+
+/-- **Room-session ids.** The lookup used by the room API (disinvite, incall, participants, switchto)
+only yields sessions of the calling backend … -/
+theorem C03_room_session_lookup (h : Hub) (b : Nat) (rs : String) (s : Nat) (hl : lookupRs h b rs = some s) :
+    ∃ x, h.sess s = some x ∧ x.backend = b := by
+  obtain ⟨_, _, f3⟩ := C03_facts
+  unfold lookupRs at hl
+  cases h1 : h.rs2sid rs with
+  | none => simp [h1] at hl
+  | some v =>
+    simp only [h1] at hl
+    cases h2 : h.sess v with
+    | none => simp [h2] at hl
+    | some x =>
+      simp only [h2, f3, Bool.true_and] at hl
+      by_cases hb : x.backend ≠ b
+      · simp [hb] at hl
+      · have hb' : x.backend = b := by simpa using hb
+        simp only [hb', ne_eq, not_true_eq_false, decide_false, Bool.false_eq_true, if_false, Option.some.injEq] at hl
+        subst hl; exact ⟨x, h2, hb'⟩
+
+/-- … and a room join that names a room-session id in use on another backend does not touch the
+other backend's session. -/
+theorem C03_join_does_not_kick_foreign (a : Acc) (rs : String) (b req v : Nat) (x : Sess)
+    (hv : a.h.rs2sid rs = some v) (hx : a.h.sess v = some x) (hne : x.backend ≠ b) :
+    disconnectByRoomSessionId a rs b req = a := by
+  obtain ⟨_, _, f3⟩ := C03_facts
+  unfold disconnectByRoomSessionId
+  simp [hv, hx, f3, hne]
+
+/-! Non-vacuity: two backends, same room id, same user id, same Nextcloud session id. -/
+
+private def demo : List Op :=
+  [.connect 1, .connect 2, .hello 1 0 .client "alice" false false, .hello 2 1 .client "alice" false false,
+   .join 1 "room" "nc1" (.ok (some ["control"]) ""), .join 2 "room" "nc1" (.ok (some ["control"]) ""),
+   .message 1 true (.session (some 2)) "x", .message 1 false (.user "alice") "y", .message 1 false .room "z",
+   .api 0 "room" (.disinvite [] ["nc1"] [])]
+
+/-- Both sessions stay in their own rooms of the same name; the three messages of session 1 and
+backend 0's disinvite for the shared Nextcloud session id reach nobody on backend 1. (The id map is
+shared by all backends, so the later registration on backend 1 shadows backend 0's entry: the
+disinvite is not delivered at all — a loss, not a leak.) -/
+example : ((run {} demo).2.drop 6).map (fun outs => outs.map (·.conn)) = [[], [], [], []] := by
+  decide +kernel
+
+end SigModel.Hub
